@@ -152,13 +152,17 @@ func runDeepCase(c *CaseCtx, kind string, r *rand.Rand) (*CaseResult, *World) {
 	}
 	cc.Ops = ops
 	cc.Hist = HistCfg{DescendPct: 0, InvalidPct: 1}
-	cc.Mon = MonCfg{TreeEvery: 16, DeepEvery: ops / 3, RefEvery: ops / 3, ReachEvery: 500, ColdAtCommit: true, DirtyEvery: 40}
+	cc.Mon = MonCfg{TreeEvery: 16, DeepEvery: ops / 2, RefEvery: ops / 2, ReachEvery: 800, ColdAtCommit: true, DirtyEvery: 400}
 	cc.CommitEvery = ops / 4
 	cc.EvictEvery = 2
 	cc.DrainAtEnd = true
+	changes := 0
 	cc.PerOp = func(w *World, root *Node) error {
+		// an operation that created or removed a slab: walk at once (every other one; in a deep tree that is most operations)
 		if w.st.OpGenerates+w.st.OpRemoves > 0 && w.opCount%16 != 0 {
-			return w.CheckTree(true)
+			if changes++; changes%2 == 0 {
+				return w.CheckTree(false)
+			}
 		}
 		return nil
 	}
@@ -555,7 +559,7 @@ func runC03(c *CaseCtx) *CaseResult {
 		cc.Prof.BigKeys = false
 		cc.Prof.KeySpace = 3000
 		cc.Slab = 256
-		ops *= 4
+		ops *= 3
 		descend = 5
 	case 5:
 		// colliding digests: external collision groups (their slab changes while the data slab holding the reference does not)
